@@ -1,3 +1,4 @@
+import Cctp.Lemmas.Batch
 import Cctp.Spec.Toy
 import Cctp.Props.C03
 import Cctp.Lemmas.Ledger
@@ -191,5 +192,14 @@ example : (Int.ofNat (2 ^ 255 + 5) : Int) > 0 := by decide
 
 /-! non-vacuity: in the toy world of Spec/Toy.lean an attested burn message for the module is received (and minted) -/
 example : ∃ o, handle Toy.ext Toy.cfg Toy.st Toy.led Toy.receive = .ok o := (Toy.isOk_iff _).mp (by decide +kernel)
+
+
+/-- conservation over any list of multi-message transactions: what the committed transactions minted is the sum
+    of the amounts their accepted burn messages state (a mint inside a transaction that fails later is undone
+    with it and is not counted on either side). -/
+theorem total_minted_eq_sum_txs (ext : Ext) (cfg : Cfg) (txs : List Txn) (w : World) (hs : w.settle = w) :
+    totalMinted (txResults ext cfg w txs) = totalStated cfg (committed ext cfg w txs) (txResults ext cfg w txs) := by
+  rw [txResults, runTxs_results ext cfg txs w hs]
+  exact total_minted_eq_sum ext cfg _ w
 
 end Cctp.C04
